@@ -198,7 +198,13 @@ bool Importer::ImporterImpl::checkUnitsForCycles(const UnitsPtr &units, History 
         return true;
     }
 
-    return checkUnitsForCycles(importedUnits, history, visited);
+    // Leave the history as we found it: it is shared with the sibling units of
+    // the units that refer to us.
+    auto result = checkUnitsForCycles(importedUnits, history, visited);
+
+    history.pop_back();
+
+    return result;
 }
 
 bool Importer::ImporterImpl::checkComponentForCycles(const ComponentPtr &component, History &history)
